@@ -163,14 +163,22 @@ def hasId (id : Nat) : Option Conn → Bool
   | some c => c.id == id
   | none => false
 
-/-- the live record with serial `id` -/
-def findConn (w : W) (id : Nat) : Option Conn :=
-  ((slots w).find? (hasId id)).join
+/-- first record with serial `id` in the slot table -/
+def findIn : List (Option Conn) → Nat → Option Conn
+  | [], _ => none
+  | none :: l, id => findIn l id
+  | some c :: l, id => if c.id = id then some c else findIn l id
+
+/-- the live record with serial `id` (the C pointer `ip` is valid iff this is `some`) -/
+def findConn (w : W) (id : Nat) : Option Conn := findIn (slots w) id
+
+/-- apply `f` to the record(s) with serial `id` -/
+def mapSlot (id : Nat) (f : Conn → Conn) : Option Conn → Option Conn
+  | some c => if c.id = id then some (f c) else some c
+  | none => none
 
 def mapConn (w : W) (id : Nat) (f : Conn → Conn) : W :=
-  { w with users := w.users.map (fun l => l.map (fun s => match s with
-      | some c => if c.id == id then some (f c) else some c
-      | none => none)) }
+  { w with users := w.users.map (fun l => l.map (mapSlot id f)) }
 
 /-- a C access through a saved `ip` after a callback: crash when the record was freed meanwhile -/
 def useConn (w : W) (id : Nat) : W :=
@@ -209,56 +217,50 @@ def hbOff (w : W) : W :=
   | some o => { setHeartBeat w o 0 with curHb := none }
   | none => w
 
+def setErr (w : W) (b : Bool) : W := { w with inError := b }
+def setMeh (w : W) (b : Bool) : W := { w with inMeh := b }
+def bumpDepth (w : W) : W := { w with mehDepth := w.mehDepth + 1 }
+def resetDepth (w : W) : W := { w with mehDepth := 0 }
+
+/-- the tail of error_handler() when it does not (or no longer) call the master:
+    `in_error = 1; in_mudlib_error_handler = 0; heart beat shut-off; in_error = 0;` (then longjmp) -/
+def errExit (w : W) : W := setErr (hbOff (setMeh (setErr w true) false)) false
+
+/-- the LPC handler of behaviour `recurse`: `catch (error ("mehinner"))` (FRAME_CATCH branch with
+    in_mudlib_error_handler = 1: print, flag := 0, longjmp to the catch), then `error ("mehagain")`: uncaught,
+    in_error = 1, in_mudlib_error_handler was 0 -> := 1, in_error = 0, and the master's handler is entered again -/
+def reenter (w : W) : W := setErr (setMeh (setErr (setMeh (bumpDepth w) false) true) true) false
+
 /-- mudlib_error_handler + the verification master's error_handler(): reports, then behaves per `meh`.
     Returns `true` when the handler itself raised (control has left through a nested error_handler/longjmp).
     `fuel` bounds the re-entries of the `recurse` behaviour (the LPC handler stops after two re-entries). -/
 def callMasterHandler : Nat → W → String → W × Bool
   | 0, w, msg => (emit w (.meh false msg), false)
   | fuel + 1, w, msg =>
-    let w := emit w (.meh false msg)
     match w.meh with
-    | .ok => (w, false)
+    | .ok => (emit w (.meh false msg), false)
     | .raise =>
       -- error("mehfail") inside the handler: nested error_handler with in_mudlib_error_handler = 1
-      --   in_error = 1; "error in mudlib error handler"; in_mudlib_error_handler = 0; heart beat; in_error = 0; longjmp
-      let w := { w with inError := true }
-      let w := { w with inMeh := false }
-      let w := hbOff w
-      ({ w with inError := false }, true)
+      (errExit (emit w (.meh false msg)), true)
     | .recurse =>
       if w.mehDepth < 2 then
-        let w := { w with mehDepth := w.mehDepth + 1 }
-        -- catch(error("mehinner")): FRAME_CATCH branch with in_mudlib_error_handler = 1: print, flag := 0, longjmp to catch
-        let w := { w with inMeh := false }
-        -- error("mehagain"): uncaught, in_error = 0, in_mudlib_error_handler = 0 -> the handler is entered again
-        let w := { w with inError := true }
-        let w := { w with inMeh := true, inError := false }
-        let (w, raised) := callMasterHandler fuel w "mehagain"
-        if raised then (w, true) else
-        let w := { w with inError := true, inMeh := false }
-        let w := hbOff w
-        ({ w with inError := false }, true)
+        let r := callMasterHandler fuel (reenter (emit w (.meh false msg))) "mehagain"
+        if r.2 then (r.1, true) else (errExit r.1, true)
       else
-        ({ w with mehDepth := 0 }, false)
+        (resetDepth (emit w (.meh false msg)), false)
 
 /-- error_handler() for an error outside any catch: everything up to (not including) the longjmp -/
 def errorHandler (w : W) (msg : String) : W :=
   if w.inError then
     -- "New error occured while generating error trace!": no report to the mudlib, in_error stays set
     w
+  else if w.inMeh then
+    -- "error in mudlib error handler"
+    errExit w
   else
-    let w := { w with inError := true }
-    if w.inMeh then
-      let w := { w with inMeh := false }
-      let w := hbOff w
-      { w with inError := false }
-    else
-      let w := { w with inMeh := true, inError := false }
-      let (w, raised) := callMasterHandler 3 w msg
-      if raised then w else
-      let w := { w with inError := true, inMeh := false }
-      let w := hbOff w
-      { w with inError := false }
+    -- in_error = 1; in_mudlib_error_handler = 1; in_error = 0; mudlib_error_handler (); in_error = 1; ... = 0
+    let r := callMasterHandler 3 (setErr (setMeh (setErr w true) true) false) msg
+    if r.2 then r.1 else errExit r.1
 
 /-- error_handler() for an error inside catch() (LOG_CATCHES): reported with caught = 1, then longjmp to the catch -/
 def caughtError (w : W) (msg : String) : W :=
@@ -273,12 +275,17 @@ def caughtError (w : W) (msg : String) : W :=
 def freeSlot (l : List (Option Conn)) (id : Nat) : List (Option Conn) :=
   l.map (fun s => if hasId id s then none else s)
 
+/-- index (offset `i`) of the first empty slot of `l`, or `i + l.length` -/
+def firstNone : List (Option Conn) → Nat → Nat
+  | [], i => i
+  | none :: _, i => i
+  | some _ :: l, i => firstNone l (i + 1)
+
 /-- `for (i = 1; i < max_users; i++) if (!all_users[i]) break;` - first free slot index >= 1 (slot 0 is the
     console's), else where the loop stops: the table size, but never below 1 (empty table: i stays 1) -/
-def firstFree (l : List (Option Conn)) : Nat :=
-  match (l.drop 1).findIdx? (fun s => s.isNone) with
-  | some i => i + 1
-  | none => max 1 l.length
+def firstFree : List (Option Conn) → Nat
+  | [] => 1
+  | _ :: t => firstNone t 1
 
 /-- new_interactive(): returns the new record's serial, or none when it refused (console user exists) -/
 def newInteractive (w : W) (console : Bool) (client : Nat) : W × Option Nat :=
